@@ -1,3 +1,7 @@
 // ---- std functions without a vstd specification (trusted: documented std behaviour) -----------
 pub assume_specification<T, A: std::alloc::Allocator>[ std::vec::Vec::<T, A>::shrink_to_fit ](v: &mut std::vec::Vec<T, A>)
     ensures final(v)@ == old(v)@;
+
+// std::mem::take: returns the old value (the value left behind is T::default(), not specified here)
+pub assume_specification<T: std::default::Default>[ std::mem::take ](x: &mut T) -> (r: T)
+    ensures r == *old(x);
